@@ -62,6 +62,7 @@ _CONC_MOD = ["IterateShardBase.dataset_structure", "IterateShardBase.process_rec
              "LazyPool._threads", "LazyPool._to_process", "LazyPool._results", "LazyPool._active_threads",
              "Queue.nput", "Queue.nput_stop", "Queue.nget", "Queue.nget_stop"]
 contract(MI, "DatasetIteration.as_numpy_iterator_concurrent",
+    summary=dict(result=None),
     props=["C02", "C03", "C12", "C19", "C07", "C14", "C13"],
     params=_IT_PARAMS, generator=True, stream_out=True, defs=_SEL_DEFS, modifies=_CONC_MOD,
     requires=_IT_REQ + ["KNOWN_TYPE(self)", "file_parallelism >= 1"],
@@ -109,6 +110,8 @@ contract(MI, "DatasetIteration.as_numpy_iterator_async",
         # everything yielded so far is the prefix of the composed stream (C03; C19 for repeat)
         (["C03", "C19", "C02"], "outs == OFSEQ(TAKES(forstream(), _k))"),
         "_k >= 0", "not failed()",
+        "implies(FIN(forstream()), _k <= LEN(SEQOF(forstream())))",
+        "FAILAT(forstream()) < 0 or FAILAT(forstream()) >= _k",
         (["C12", "C19"], "implies(shuffle == 0, forstream() == ite_stream(repeat, CANONCYC(self, split, process_record, shards, None, shard_filter), CANON(self, split, process_record, shards, None, shard_filter)))"),
         (["C12", "C02"], "implies(shuffle != 0, forstream() == MAPOPT(process_record, RRS(MAPS(RDOF(self), COMMON(self, split, shards, None, shard_filter, repeat, shuffle)), file_parallelism)))"),
         "implies(repeat, not FIN(forstream()))",
